@@ -1894,9 +1894,16 @@ impl NestedLoopJoinStream {
         }
 
         if active.pending_batches.is_empty() {
-            // No data at all — go directly to Done
+            // No (more) left data. Earlier chunks may already have been joined
+            // (the previous chunk was closed by a batch that turned out to be the
+            // last one): the right rows that matched none of them are still owed.
             self.left_exhausted = true;
-            self.state = NLJState::Done;
+            if self.should_track_unmatched_right {
+                self.right_data = None;
+                self.state = NLJState::EmitGlobalRightUnmatched;
+            } else {
+                self.state = NLJState::Done;
+            }
             return ControlFlow::Continue(());
         }
 
